@@ -376,6 +376,11 @@ pub fn check(case: &Case, st: &mut Stats) -> CheckResult {
   Ok(())
 }
 
+/// the library stage, driven by bytes (coverage-guided tier)
+pub fn erased() -> crate::fuzz::Erased {
+  crate::fuzz::Erased::generic("C14", "library", strategy, interpret, check)
+}
+
 pub fn run(cfg: &RunCfg) -> i32 {
   let mut report = Report::new(
     cfg,
@@ -408,5 +413,6 @@ pub fn run(cfg: &RunCfg) -> i32 {
   report.absorb("cli", o);
   cli::cleanup_work_root();
   report.floor("nontrivial", 0.2, "evaluations");
+  crate::fuzz::stage(cfg, &mut report, &known, 20000);
   report.finish()
 }
